@@ -407,6 +407,11 @@ func (n *c09swNet) forward(st c09swStep) (res, to, v string) {
 			}
 		case p := <-n.in.packets:
 			if p.incomingHTLCID == id {
+				// (the add itself arriving here means the switch chose the
+				// incoming link as the outgoing one)
+				if _, isAdd := p.htlc.(*lnwire.UpdateAddHTLC); isAdd {
+					return "fwd", "in", "ok"
+				}
 				return "fail", "-", c09Verdict(p.linkFailure)
 			}
 		case <-deadline:
